@@ -280,6 +280,28 @@ def run(ctx):
             pe = dectree.PathEnum(sc, db)
             saves = cfg.find_calls(sc, c.WOB + "save")
             dels = cfg.find_calls(sc, c.WOB + "delete")
+            # a repair may also be written by a helper that cancels the log entry and writes the output record in
+            # the same batch: helper(.., &output, delete_output: bool) with `delete` on the flag's true edge and
+            # `save` on its false edge; the call then counts as a save / delete according to the constant passed
+            for hb, ht in sc.calls():
+                hf = db.fns.get(ht.get("f") or "")
+                if hf is None or not hf.id.startswith(S) or hf.id == S + "restore_missing_output":
+                    continue
+                hs, hd = cfg.find_calls(hf, c.WOB + "save"), cfg.find_calls(hf, c.WOB + "delete")
+                flags = [i for i in range(1, hf.argc + 1) if hf.locals[i]["ty"] == "bool"]
+                if not (hs and hd and len(flags) == 1):
+                    continue
+                gfl = cfg.local_guard(hf, flags[0])
+                shape = bool(gfl.ok) and all(cfg.must_pass(hf, gfl.ok, {b_})[0] for b_, _t in hd) and all(cfg.must_pass(hf, gfl.fail, {b_})[0] for b_, _t in hs)
+                kv = vf.const_of_operand(sc, ht["a"][flags[0] - 1]) if flags[0] - 1 < len(ht["a"]) else None
+                recs = [a_ for a_ in ht["a"] if vf.op_place(a_) and OD in (sc.locals[vf.op_place(a_)[0]].get("ty") or "")]
+                if not shape or kv not in ("0", "1") or len(recs) != 1:
+                    run.error("C16.R3: helper %s writes output records but its save/delete switch could not be resolved at %s" % (pp.short(hf.id), c.site_of(sc, hb)))
+                    continue
+                # present the helper call like a direct write: argument 1 = the record
+                pseudo = dict(ht)
+                pseudo["a"] = [ht["a"][0], recs[0]]
+                (dels if kv == "1" else saves).append((hb, pseudo))
             rest = cfg.find_calls(sc, S + "restore_missing_output")
             h = len(rest) == 1 and not cfg.must_pass(sc, gd.ok, {rest[0][0]})[0] and rest[0][0] in cfg.reach(sc, cut_edges=gd.ok)
             run.instance(R3, {"fn": "scan", "obligation": "missing outputs are restored whether or not delete_unconfirmed is set"}, held=h)
@@ -300,7 +322,7 @@ def run(ctx):
             for kind, want_status, sites in (("always-save", "Spent", unguarded), ("flag-save", "Locked", guarded)):
                 ok = False
                 if len(sites) == 1 and cls is not None:
-                    t = sc.bbs[sites[0]]["t"]
+                    t = dict(saves)[sites[0]]
                     src = vf.origins(sc, t["a"][1])
                     vecs = {v for v, stt in cls.items() if stt == want_status}
                     ok = bool(vecs) and any(("local", v) in src or _derives_from_local(sc, t["a"][1], v) for v in vecs)
